@@ -4,6 +4,7 @@ import (
 	"bytes"
 	"go/format"
 	"fmt"
+	"go/parser"
 	"go/token"
 	"os"
 	"path/filepath"
@@ -164,6 +165,19 @@ func c01LayoutCandidates(src []byte) []layoutCandidate {
 			if p >= 0 && indentOf(lines[p]) > ci {
 				cs = append(cs, layoutCandidate{"hanging-comment-before-case-after-multiline-statement", i, j - 1, 0})
 			}
+		case ci > ni && !strings.HasPrefix(next, "}") && !strings.HasPrefix(next, ")") && !strings.HasPrefix(next, "]"):
+			// an own-line comment that gofmt keeps at the deeper indentation of the continuation
+			// line above it (last line of a multi-line expression or type), followed by a line at
+			// the shallower indentation of the next sibling: go/printer applies the pending
+			// unindent before a comment only when the comment's column equals the next token's,
+			// and dst's restored positions put both in the same column
+			p := i - 1
+			for p >= 0 && strings.TrimSpace(lines[p]) == "" {
+				p--
+			}
+			if p >= 0 && indentOf(lines[p]) >= ci && !co[p] {
+				cs = append(cs, layoutCandidate{"comment-at-continuation-indent-before-shallower-sibling", i, j - 1, 0})
+			}
 		case strings.HasPrefix(strings.TrimSpace(lines[i]), "//line ") && ci == 0 && ni > 0:
 			cs = append(cs, layoutCandidate{"line-directive-col1-in-indented-code", i, j - 1, 0})
 		}
@@ -251,6 +265,26 @@ func c01LayoutPredicates(src []byte) []string {
 	return ps
 }
 
+// c01WithLineDirective inserts "//line zz_generated.y:1000" on a line of its own (surrounded by
+// blank lines) directly after the package clause.
+func c01WithLineDirective(src []byte) []byte {
+	fset := token.NewFileSet()
+	f, err := parser.ParseFile(fset, "", src, parser.PackageClauseOnly)
+	if err != nil {
+		return nil
+	}
+	off := fset.Position(f.Name.End()).Offset
+	nl := bytes.IndexByte(src[off:], '\n')
+	if nl < 0 {
+		return nil
+	}
+	at := off + nl + 1
+	out := append([]byte{}, src[:at]...)
+	out = append(out, "\n//line zz_generated.y:1000\n"...)
+	out = append(out, src[at:]...)
+	return out
+}
+
 func runC01(c *fw.Ctx) {
 	types := map[string]bool{}
 	points := map[string]bool{}
@@ -314,6 +348,13 @@ func runC01(c *fw.Ctx) {
 			continue
 		}
 		checkFile("file:"+corpus.Rel(p), filepath.Base(p), src, "corpus")
+		// the same file as generated code: a //line directive after the package clause shifts every
+		// reported line number of the rest of the file (the file itself stays gofmt-canonical)
+		if i%3 == 0 {
+			if ld := c01WithLineDirective(src); ld != nil && corpus.Canonical(ld) {
+				checkFile("linedirective:"+corpus.Rel(p), filepath.Base(p), ld, "corpus+line-directive")
+			}
+		}
 	}
 
 	// (a2) hand-written layout zoo
@@ -333,6 +374,9 @@ func runC01(c *fw.Ctx) {
 			continue
 		}
 		checkFile("zoo:"+k, k+".go", src, "zoo")
+		if ld := c01WithLineDirective(src); ld != nil && corpus.Canonical(ld) {
+			checkFile("linedirective:zoo:"+k, k+".go", ld, "zoo+line-directive")
+		}
 	}
 
 	// (c) comment mutations
